@@ -18,10 +18,47 @@ RULE = ("case = (family, configuration, base tensor, drawn tf_seed, learning-pha
         "the grid families) an element that is exactly a code; distinct by hash of "
         "the whole case. Families: fixed (grid formats with constant scale), po2, "
         "sign (binary/ternary/stochastic_*), auto (fixed point with "
-        "data-dependent scale).")
+        "data-dependent scale). Usage route (optional part of the case; absent = "
+        "direct eager call, one tiled execution): via in {direct, function "
+        "(tf.function(q)), layer (QActivation(q)), layer_function (tf.function "
+        "around the layer call), model_call (Sequential([QActivation])(x)), "
+        "model_predict (model.predict)} x explicit training flag in {None, True, "
+        "False} (layer/model routes; with a schedule holding both phases each "
+        "flag disagrees with the learning phase in one step) x draws in {tiled "
+        "(one execution of n tiled rows), calls (the same eager or traced object "
+        "executed k times on r in {1,2,4} rows; predict: k batches of r rows; "
+        "k=256 quick, 2048 thorough; every (row, element) position is an element "
+        "with k draws)}. Deterministic part: every class through 13 routes; "
+        "Hypothesis draws a route for a third of its cases.")
 ASSUMPTIONS = [
     "checks run under TF_USE_LEGACY_KERAS=1 (tf_keras), float32, eager; "
-    "tf.random.set_seed(tf_seed + step) immediately before every quantizer call",
+    "tf.random.set_seed(tf_seed + step) immediately before every quantizer call "
+    "(repeated executions: once before the k executions of a step)",
+    "'training phase' of the statement = K.learning_phase(), as its quantifier "
+    "says (learning phase in {0,1}); an explicit training= argument of the "
+    "enclosing QActivation / model call (and the training=False that predict "
+    "passes) does not change which clause applies, which is how every quantizer "
+    "of the unchanged tree behaves",
+    "every traced object (tf.function, Keras model and its predict function) is "
+    "created inside the schedule step that uses it, after the learning phase is "
+    "set: tf_keras evaluates K.learning_phase() to a Python value while tracing, "
+    "so a trace belongs to the phase it was made in (re-using a trace across a "
+    "phase switch is outside the statement)",
+    "inference equality on a non-default route compares with the "
+    "round-to-nearest twin executed through the same route (graph and eager "
+    "execution of quantized_linear(alpha='auto') differ in the last float32 bit "
+    "on the unchanged tree)",
+    "repeated executions are not generated for binary/ternary with alpha='auto*' "
+    "(their scale is a least-squares fit to the codes just drawn, so every "
+    "execution has its own code set) and, in the deterministic part, not as "
+    "eager repetitions for the sign/auto families (cost)",
+    "an element whose n draws are one and the same code, with exactly known "
+    "position p, is reported without a second sample when p^n+(1-p)^n < 2.56e-12; "
+    "for repeated executions the second sample of the sign/auto families has 2k "
+    "(not 8k) executions",
+    "a failure on a non-default route is re-examined on the default route: same "
+    "bucket there -> reported under the default signature, otherwise the "
+    "signature carries route=<via>[:flag_disagrees] and draws=calls",
     "adjacency, code-unchanged and inference equality are exact comparisons "
     "(float32 outputs divided by a power-of-two unit in float64)",
     "mean test: |mean - c| <= Bernstein bound at the two-sided 7-sigma level "
@@ -85,7 +122,7 @@ ASSUMPTIONS = [
     "sign family, input) of an admissible code are bucketed as "
     "ste_ulp_noise (x + (xq - x) rounding), further away as a wrong value",
 ]
-BUDGET_S = {"quick": 28, "thorough": 780}
+BUDGET_S = {"quick": 40, "thorough": 780}
 REQUIRED_LABELS = {
     t: ["fam:fixed", "fam:po2", "fam:sign", "fam:auto", "train", "infer", "interior",
         "exact_code", "clipped", "walk", "hyp", "quantized_bits",
@@ -95,7 +132,12 @@ REQUIRED_LABELS = {
         "tiny_elem", "binary_infer:rank1", "binary_infer:lastdim1",
         "binary_infer:lastdim_eq_rank", "binary_infer:lastdim_ne_rank",
         "binary_infer:rank2", "binary_infer:rank3", "binary_infer:rank4",
-        "threshold_probe", "wide_format", "zero_channel", "po2_quad"]
+        "threshold_probe", "wide_format", "zero_channel", "po2_quad",
+        "route:direct", "route:function+calls", "route:layer_function+calls",
+        "route:model_predict+calls", "route:direct+calls", "route:function+tiled",
+        "route:layer+tiled", "route:layer_function+tiled", "route:model_call+tiled",
+        "route:model_predict+tiled", "flag_disagrees:train", "flag_disagrees:infer",
+        "flag:agree", "flag:none", "draws:calls", "draws:tiled"]
     for t in ("quick", "thorough")}
 
 NDRAWS = {"quick": 2048, "thorough": 16384}
@@ -127,6 +169,97 @@ def _call(q, x, phase, seed):
 def _tile(base, n):
   base = np.asarray(base, dtype=np.float32)
   return np.tile(base[None], (n,) + (1,) * base.ndim)
+
+
+# ---------------------------------------------------------------------------
+# usage routes: how the quantizer is executed and how independent draws are taken
+
+ROUTE0 = {"via": "direct", "training": None, "draws": "tiled"}
+MODEL_VIAS = ("model_call", "model_predict")
+NCALLS = {"quick": 256, "thorough": 2048}
+_MODELS = [0]
+_KNOWN = []
+
+
+def _route_of(case):
+  return dict(ROUTE0, **(case.get("route") or {}))
+
+
+def _flag(route, phase):
+  """Relation of the layer's explicit training flag to the learning phase: the
+  property is stated in terms of the learning phase, the flag must not matter."""
+  via, tr = route["via"], route.get("training")
+  if via == "model_predict":
+    tr = False                       # Keras predict_step calls model(x, training=False)
+  elif via in ("direct", "function"):
+    return "none"
+  if tr is None:
+    return "none"
+  return "agree" if bool(tr) == bool(phase) else "disagree"
+
+
+def _route_sig(route, phase):
+  """Signature keys of a non-default route (nothing for direct/tiled so that the
+  buckets of the plain usage keep their keys)."""
+  out = {}
+  if route["via"] != "direct":
+    out["route"] = route["via"] + (":flag_disagrees" if _flag(route, phase) == "disagree" else "")
+  if route["draws"] == "calls":
+    out["draws"] = "calls"
+  return out
+
+
+def _exec(q, route, x, phase, seed, k=1):
+  """Run the quantizer on x through the route, k times, under a learning phase;
+  returns [k, *x.shape].  Everything traced (tf.function, Keras predict function,
+  Keras model) is created here, under the phase, and used for these k executions
+  only: tf_keras' K.learning_phase() is a Python value when a function is traced,
+  so a traced function belongs to the phase it was traced in.  The RNG is seeded
+  once, before the k executions (re-seeding before every execution would replay
+  the same noise)."""
+  tf = _tf()
+  K = tf.keras.backend
+  via, tr = route["via"], route.get("training")
+  x = np.asarray(x, dtype=np.float32)
+  K.set_learning_phase(int(phase))
+  try:
+    tf.random.set_seed(int(seed))
+    kw = {} if tr is None else {"training": bool(tr)}
+    if via == "direct":
+      f = q
+    elif via == "function":
+      f = tf.function(lambda t: q(t))
+    elif via in ("layer", "layer_function"):
+      from qkeras import QActivation  # pylint: disable=g-import-not-at-top
+      layer = QActivation(q)
+      f = lambda t: layer(t, **kw)    # pylint: disable=unnecessary-lambda-assignment
+      if via == "layer_function":
+        f = tf.function(f)
+    elif via in MODEL_VIAS:
+      from qkeras import QActivation  # pylint: disable=g-import-not-at-top
+      _MODELS[0] += 1
+      model = tf.keras.Sequential([QActivation(q, input_shape=tuple(x.shape[1:]))])
+      if via == "model_predict":
+        # k batches of x.shape[0] rows: the traced predict function runs k times
+        out = model.predict(np.tile(x, (k,) + (1,) * (x.ndim - 1)),
+                            batch_size=int(x.shape[0]), verbose=0)
+        return np.asarray(out, dtype=np.float32).reshape((k,) + x.shape)
+      f = lambda t: model(t, **kw)    # pylint: disable=unnecessary-lambda-assignment
+    else:
+      raise ValueError(via)
+    xt = tf.constant(x)
+    return np.stack([np.asarray(f(xt).numpy(), dtype=np.float32) for _ in range(k)])
+  finally:
+    K.set_learning_phase(0)
+
+
+def _run_train(q, route, base, nn, phase, seed):
+  """nn draws of every element of base: [nn(, r), *base.shape]."""
+  if route["via"] == "direct" and route["draws"] == "tiled":
+    return _call(q, _tile(base, nn), phase, seed)
+  if route["draws"] == "tiled":
+    return _exec(q, route, _tile(base, nn), phase, seed, 1)[0]
+  return _exec(q, route, _tile(base, int(route["rows"])), phase, seed, nn)
 
 
 def _builder(fam):
@@ -245,6 +378,13 @@ def _grid_train(fam, cfg, xs, d, ref, redraw):
       return
     sus = idx[mb]
     gross = (np.abs(mean - cT[idx]) > GROSS * tol)[mb]
+    # an element whose n draws are all the same code although its position p is
+    # known exactly: a sampler with mean c on {lo,hi} does that with probability
+    # p^n + (1-p)^n; below LEVEL it is believed at once (no second sample)
+    pp = np.where(wT[sus] > 0, (cT[sus] - loT[sus]) / np.where(wT[sus] > 0, wT[sus], 1.0), 0.0)
+    const = np.all(dT[:, sus] == dT[0:1, sus], axis=0)
+    gross = gross | (const & (epsT[sus] == 0) &
+                     (2.0 * np.maximum(pp, 1.0 - pp) ** n < S.LEVEL))
     d2 = None
     if not gross.all():
       d2 = redraw(sus[~gross], 8 * n)    # second, larger sample, other seed
@@ -590,6 +730,39 @@ def _auto_train(cfg, base, y, redraw):
 
 
 def oracle(case):
+  """The case through its route; a failure seen through a non-default route is
+  re-examined on the plain route (direct call, one tiled execution): if the plain
+  route fails in the same bucket the route is not part of the root cause and the
+  failure is reported under the plain signature, otherwise the signature names
+  the route."""
+  fails, labels, nontrivial = _oracle(case)
+  route = _route_of(case)
+  if fails and not (route["via"] == "direct" and route["draws"] == "tiled"):
+    if not _KNOWN:
+      _KNOWN.append(core.load_known("C08"))
+
+    def strip(sig):
+      return {k: v for k, v in sig.items() if k not in ("route", "draws")}
+    # known findings never name a route (subset matching): such a failure keeps
+    # its bucket of the default route; the control run is for the others only
+    unknown = [f for f in fails if core.match_known(_KNOWN[0], f[0], strip(f[1])) is None]
+    keys0 = set()
+    if unknown:
+      f0, _, _ = _oracle({k: v for k, v in case.items() if k != "route"})
+      keys0 = set(core.fkey(sc, sig) for sc, sig, _, _ in f0)
+    out = []
+    for f in fails:
+      sc, sig, det, mc = f
+      if f not in unknown or core.fkey(sc, strip(sig)) in keys0:
+        out.append((sc, strip(sig), det, mc if f not in unknown else
+                    {k: v for k, v in mc.items() if k != "route"}))
+      else:
+        out.append(f)
+    fails = out
+  return fails, labels, nontrivial
+
+
+def _oracle(case):
   """Returns (fails, labels, nontrivial); fails = [(sub_check, signature, detail,
   minimal_case)]."""
   fam, cfg = case["fam"], case["cfg"]
@@ -604,6 +777,15 @@ def oracle(case):
   labels = ["fam:" + fam, cfg["cls"], cfg["cls"] + ":" + variant]
   if len(set(phases)) > 1:
     labels.append("phase_switch")
+  route = _route_of(case)
+  plain = route["via"] == "direct" and route["draws"] == "tiled"
+  calls = route["draws"] == "calls"
+  rows = int(route.get("rows", 1)) if calls else 1
+  nd = int(route["calls"]) if calls else n      # draws per element
+  E = xs.size
+  labels += ["route:" + route["via"], "draws:" + route["draws"]]
+  if not plain:
+    labels.append("route:%s+%s" % (route["via"], route["draws"]))
   fails = []
   stats = {}
   train_ok = case.get("train", True)
@@ -611,7 +793,7 @@ def oracle(case):
   def mini(j=None, **kwd):
     c = dict(case)
     if j is not None and fam in ("fixed", "po2"):
-      c = dict(case, xs=[float(xs[j])], shape=[1])
+      c = dict(case, xs=[float(xs[j % E])], shape=[1])
     c.update(kwd)
     return c
 
@@ -620,45 +802,60 @@ def oracle(case):
     twin = _builder(fam)(cfg, False)
     for step, ph in enumerate(phases):
       sd = seed + step
+      rsig = dict(basesig, **_route_sig(route, ph))
+      fl_rel = _flag(route, ph)
       if ph == 1:
         if not train_ok:
           continue
-        labels.append("train")
+        labels += ["train", "flag:" + fl_rel]
+        if fl_rel == "disagree":
+          labels.append("flag_disagrees:train")
         try:
-          y = _call(q, _tile(base, n), 1, sd)
+          y = _run_train(q, route, base, nd, 1, sd)
         except Exception as e:  # pylint: disable=broad-except
-          sig = dict(core.exc_signature(e), phase="train", **basesig)
+          sig = dict(core.exc_signature(e), phase="train", **rsig)
           fails.append(("call_raises", sig, repr(e)[:300], mini()))
           continue
         if fam in ("sign", "auto"):
           cache = {}
 
           def redraw(nn, sd=sd, cache=cache):
+            if calls:
+              nn = min(nn, 2 * nd)   # second sample of repeated executions: 2x, not 8x
             if nn not in cache:
               try:
-                cache[nn] = _call(q, _tile(base, nn), 1, sd + RERUN_SEED)
+                cache[nn] = _run_train(q, route, base, nn, 1, sd + RERUN_SEED)
               except Exception:  # pylint: disable=broad-except
                 cache[nn] = None
             return cache[nn]
-          fl, st = (_sign_train if fam == "sign" else _auto_train)(cfg, base, y, redraw)
+          base_e = _tile(base, rows) if calls else base
+          fl, st = (_sign_train if fam == "sign" else _auto_train)(cfg, base_e, y, redraw)
         else:
-          ref = _grid_reference(fam, cfg, xs)
-          d = y.reshape(n, -1).astype(np.float64) / ref["unit"]
+          xs_e = np.tile(xs, rows)               # element list of one execution
+          ref = _grid_reference(fam, cfg, xs_e)
+          d = y.reshape(nd, -1).astype(np.float64) / ref["unit"]
 
-          def redraw(idx, nn, sd=sd, ref=ref):
+          def redraw(idx, nn, sd=sd, ref=ref, xs_e=xs_e):
             try:
-              y2 = _call(q, _tile(xs[idx], nn), 1, sd + RERUN_SEED)
+              if calls:
+                y2 = _exec(q, route, xs_e[idx][None], 1, sd + RERUN_SEED, nn)
+              else:
+                y2 = _run_train(q, route, xs_e[idx], nn, 1, sd + RERUN_SEED)
             except Exception:  # pylint: disable=broad-except
               return None
             return y2.reshape(nn, -1).astype(np.float64) / ref["unit"]
-          fl, st = _grid_train(fam, cfg, xs, d, ref, redraw)
+          fl, st = _grid_train(fam, cfg, xs_e, d, ref, redraw)
         for k, v in st.items():
           stats[k] = stats.get(k, False) or v
         for sc, sx, det, j in fl:
-          fails.append((sc, dict(basesig, **sx), det, mini(j, phases=[1])))
+          fails.append((sc, dict(rsig, **sx), det, mini(j, phases=[1])))
       else:
-        labels.append("infer")
+        labels += ["infer", "flag:" + fl_rel]
+        if fl_rel == "disagree":
+          labels.append("flag_disagrees:infer")
         xin = base.reshape(-1) if flat_infer else base
+        if route["via"] in MODEL_VIAS:
+          xin = xin[None]                          # a Keras model wants a batch axis
         if cfg["cls"] == "binary":
           # the inference branch of binary(use_stochastic_rounding) builds a ones
           # tensor from the input: every rank / last-dimension class is measured
@@ -667,35 +864,43 @@ def oracle(case):
               ("lastdim_eq_rank" if xin.shape[-1] == xin.ndim else "lastdim_ne_rank"))
           labels += ["binary_infer:" + ld, "binary_infer:rank%d" % xin.ndim]
         try:
-          y0 = _call(q, xin, 0, sd)
-          y0b = _call(q, xin, 0, sd + 1)
+          if plain:
+            y0 = _call(q, xin, 0, sd)
+            y0b = _call(q, xin, 0, sd + 1)
+          else:
+            y0, y0b = _exec(q, route, xin, 0, sd, 2)   # the same traced object twice
         except Exception as e:  # pylint: disable=broad-except
-          sig = dict(core.exc_signature(e), phase="infer", **basesig)
+          sig = dict(core.exc_signature(e), phase="infer", **rsig)
           fails.append(("call_raises", sig, "input shape %r: %s" % (list(xin.shape), repr(e)[:240]),
                         mini(phases=[0])))
           continue
-        yt = _call(twin, xin, 0, sd)
+        # the round-to-nearest twin goes through the same route (a traced graph and
+        # an eager execution of one expression may differ in the last float32 bit)
+        yt = _call(twin, xin, 0, sd) if plain else _exec(twin, route, xin, 0, sd, 1)[0]
         if y0.shape != xin.shape or y0b.shape != xin.shape:
-          fails.append(("infer_shape", dict(basesig, clause="infer_shape"),
+          fails.append(("infer_shape", dict(rsig, clause="infer_shape"),
                         "input shape %r -> output shape %r with learning phase 0" %
                         (list(xin.shape), list(y0.shape)), mini(phases=[0])))
           continue
         if not np.array_equal(y0, y0b, equal_nan=True):
           j = int(np.nonzero(~((y0 == y0b) | (np.isnan(y0) & np.isnan(y0b))).reshape(-1))[0][0])
-          fails.append(("infer_deterministic", dict(basesig, clause="infer_deterministic",
+          fails.append(("infer_deterministic", dict(rsig, clause="infer_deterministic",
                                                     after_training=bool(1 in phases[:step])),
                         "x=%r -> %r then %r with learning phase 0" %
                         (xin.reshape(-1)[j], y0.reshape(-1)[j], y0b.reshape(-1)[j]),
                         mini(j, phases=phases[:step + 1] if 1 in phases[:step] else [0])))
         if not np.array_equal(y0, yt, equal_nan=True):
           j = int(np.nonzero(~((y0 == yt) | (np.isnan(y0) & np.isnan(yt))).reshape(-1))[0][0])
-          fails.append(("infer_equals_nearest", dict(basesig, clause="infer_equals_nearest",
+          fails.append(("infer_equals_nearest", dict(rsig, clause="infer_equals_nearest",
                                                      after_training=bool(1 in phases[:step])),
                         "x=%r -> %r, round-to-nearest twin gives %r" %
                         (xin.reshape(-1)[j], y0.reshape(-1)[j], yt.reshape(-1)[j]),
                         mini(j, phases=phases[:step + 1] if 1 in phases[:step] else [0])))
   finally:
     core.reset_globals()
+    if _MODELS[0] >= 40:
+      _MODELS[0] = 0
+      _tf().keras.backend.clear_session()
   labels += [k for k, v in stats.items() if v]
   if case.get("zero_channel"):
     labels.append("zero_channel")
@@ -727,6 +932,74 @@ def _cfg_pools(tier):
     by.setdefault(c["cls"], []).append(c)      # also drawn by Hypothesis
   return {"fixed": by, "fixed_infer_only": finfer, "po2": S.po2_cfgs(tier), "wide": wide,
           "sign": S.sign_cfgs(tier), "auto": S.auto_cfgs(tier), "excluded": excl}
+
+
+# usage routes of the deterministic part: per class one entry of each group
+# (the entry rotates with the class): repeated executions of a traced object,
+# explicit flag True, explicit flag False, no flag; eager repetitions for the
+# grid families
+ROUTE_GROUPS = [
+    [("function", None, "calls"), ("layer_function", True, "calls"),
+     ("model_predict", None, "calls"), ("layer_function", False, "calls")],
+    [("layer", True, "tiled"), ("model_call", True, "tiled"),
+     ("layer_function", True, "tiled")],
+    [("layer", False, "tiled"), ("model_call", False, "tiled"),
+     ("layer_function", False, "tiled")],
+    [("layer", None, "tiled"), ("function", None, "tiled"), ("model_call", None, "tiled"),
+     ("model_predict", None, "tiled")],
+    [("direct", None, "calls")]]
+# Hypothesis: weights favour the traced routes for repeated executions (cheap per
+# execution); eager layer/model executions are taken as one tiled call
+ROUTES_HYP = ([("function", None, "calls")] * 3 + [("layer_function", None, "calls"),
+                                                   ("layer_function", True, "calls"),
+                                                   ("layer_function", False, "calls"),
+                                                   ("model_predict", None, "calls"),
+                                                   ("direct", None, "calls"),
+                                                   ("layer", True, "calls"),
+                                                   ("model_call", False, "calls")] +
+              [(v, t, "tiled") for v in ("layer", "layer_function", "model_call")
+               for t in (None, True, False)] +
+              [("function", None, "tiled"), ("model_predict", None, "tiled")])
+
+
+def _mk_route(ctx, via, tr, draws, rows=1, cfg=None):
+  if cfg is not None and S.codes_depend_on_draw(cfg):
+    draws = "tiled"       # every execution has its own code set (see ASSUMPTIONS)
+  r = {"via": via, "training": tr, "draws": draws}
+  if draws == "calls":
+    r.update(rows=int(rows), calls=NCALLS[ctx.tier])
+  return r
+
+
+def _route_walk(ctx, pools):
+  """Every class of every family through one route of every group (the entry of
+  the group and the configuration advance with the class / the group)."""
+  out = []
+  groups = [("fixed", cls, pools["fixed"][cls]) for cls in sorted(pools["fixed"])]
+  for fam in ("po2", "sign", "auto"):
+    by = {}
+    for c in pools[fam]:
+      if fam == "sign" and not S.sign_trainable(c):
+        continue
+      by.setdefault(c["cls"], []).append(c)
+    groups += [(fam, cls, by[cls]) for cls in sorted(by)]
+  for g, (fam, cls, lst) in enumerate(groups):
+    for i, grp in enumerate(ROUTE_GROUPS):
+      via, tr, draws = grp[(g + i) % len(grp)]
+      if (via, draws) == ("direct", "calls") and (fam in ("sign", "auto") or g % 2):
+        continue            # eager repetitions cost 3-10 ms each; traced ones stay
+      cfg = lst[(g + i * 7) % len(lst)]
+      case = {"fam": fam, "cfg": cfg, "phases": SCHEDULES[(g + i) % len(SCHEDULES)],
+              "route": _mk_route(ctx, via, tr, draws, rows=(1, 2, 4)[(g + i) % 3], cfg=cfg)}
+      if fam == "fixed":
+        case["xs"] = S.fixed_walk(cfg, n_elems=12)
+      elif fam == "po2":
+        case["xs"] = S.po2_walk(cfg)
+      else:
+        t = S.sign_walk(cfg) if fam == "sign" else S.auto_walk(cfg)
+        case.update(xs=t["xs"], shape=t["shape"])
+      out.append(case)
+  return out
 
 
 def _walk_cases(ctx, pools):
@@ -795,6 +1068,7 @@ def _walk_cases(ctx, pools):
       t = S.auto_walk(cfg)
       out.append({"fam": "auto", "cfg": cfg, "xs": t["xs"], "shape": t["shape"],
                   "phases": SCHEDULES[k % len(SCHEDULES)]})
+  out += _route_walk(ctx, pools)
   for j, c in enumerate(out):
     c["n"] = n
     c["tf_seed"] = int((core.jhash([c["cfg"], j]) + ctx.seed * 7919) % (2 ** 31 - 10000))
@@ -835,6 +1109,12 @@ def _strategy(ctx, pools):
       if not S.sign_trainable(cfg):
         case["train"] = False
         case["phases"] = [0]
+    if draw(st.integers(0, 2)) == 0:
+      via, tr, draws = draw(st.sampled_from(ROUTES_HYP))
+      if draws == "calls" and not case.get("train", True):
+        draws = "tiled"
+      case["route"] = _mk_route(ctx, via, tr, draws, rows=draw(st.sampled_from([1, 1, 2, 4])),
+                                cfg=case["cfg"])
     return case
   return case_st()
 
